@@ -172,7 +172,20 @@ def flat_close(vals, rats, rel=FLAT_REL):
         if len(rv) != len(rr):
             return False
         for v, q in zip(rv, rr):
-            if not fclose(float(v), unrat(q), rel):
+            # fast path in floating point (int / int is correctly rounded, so qf is within 2^-53 of q: negligible beside rel);
+            # only a difference within a factor 4 of the tolerance is decided exactly
+            a = float(v)
+            if not math.isfinite(a):
+                return False
+            if isinstance(q, list):
+                qn, qd = int(q[0]), int(q[1])
+                qf = qn / qd
+            else:
+                qf = float(int(q))
+            d, m = abs(a - qf), max(abs(a), abs(qf))
+            if d <= 0.25 * rel * m:
+                continue
+            if d > 4.0 * rel * m or not fclose(a, unrat(q), rel):
                 return False
     return True
 
@@ -913,7 +926,8 @@ class C09(Prop):
         def do_reads():
             """the calls of `creads` on the object; each result against the driver's (model of SRRLaser.get on the stored layers
             and the calibrations: 1e-12 of the magnitudes involved, 2^-20 for float32 fields; exact without calibrate).  A field
-            of integer dtype that get(calibrate=True) without an element wrote back into its own dtype is not compared."""
+            of integer dtype that get(calibrate=True) without an element wrote back into its own dtype is not compared.  Plain
+            reads that differ from the model are a broken correspondence; CALIBRATED values that differ are recorded only."""
             cal_now = {c[0]: (float(unrat(c[1])), float(unrat(c[2]))) for c in rep["cal"]}
             vmax = [max([abs(v) for L in rep["stack"] for px in L["data"] for v in px[k:k + 1]] + [1]) * scales[k] for k in range(nel)]
             for rd, mj in zip(reads, rep["reads_model"]):
@@ -922,13 +936,24 @@ class C09(Prop):
                 try:
                     res = laser.get(rd["element"], **kw)
                 except Exception as ex:
-                    cr_impl.append({**tag, "raises": type(ex).__name__, "msg": str(ex)[:200]})
-                    cr_model.append({**tag, "raises": True} if mj is None else {**tag, "shape": mj["shape"], "agrees_with_model": True})
+                    ent = {**tag, "raises": type(ex).__name__, "msg": str(ex)[:200]}
+                    cr_impl.append(ent)
+                    if rd["calibrate"]:
+                        cr_model.append(ent)
+                        if mj is not None:
+                            cr_feats.add("calibrated read: raises where the model returns (recorded only)")
+                    else:
+                        cr_model.append({**tag, "raises": True} if mj is None else {**tag, "shape": mj["shape"], "agrees_with_model": True})
                     continue
                 returned.append(res)
                 if mj is None:
-                    cr_impl.append({**tag, "shape": list(res.shape)})
-                    cr_model.append({**tag, "raises": True})
+                    ent = {**tag, "shape": list(res.shape)}
+                    cr_impl.append(ent)
+                    if rd["calibrate"]:
+                        cr_model.append(ent)
+                        cr_feats.add("calibrated read: returns where the model raises (recorded only)")
+                    else:
+                        cr_model.append({**tag, "raises": True})
                     continue
                 sel = list(range(nel)) if rd["element"] is None else [names.index(rd["element"])]
                 got = read_values(res, [names[k] for k in sel])
@@ -955,8 +980,18 @@ class C09(Prop):
                             at = np.unravel_index(int(np.argmax(d)), d.shape)
                             first = {"field": names[k], "at": [int(x) for x in at], "got": float(got[..., pos][at]), "model": float(want[..., pos][at])}
                             break
-                cr_impl.append({**tag, "shape": list(res.shape), "agrees_with_model": bool(ok), **({"first_difference": first} if first else {})})
-                cr_model.append({**tag, "shape": mj["shape"], "agrees_with_model": True})
+                if rd["calibrate"]:
+                    # no clause of the property says what a CALIBRATED read returns: a difference from the model is recorded (feature,
+                    # evidence), never a verdict (notes/SECTION13.md 13.2); what is demanded is that the store is unchanged afterwards
+                    ent = {**tag, "shape": list(res.shape), "calibrated_values_agree_with_model": bool(ok),
+                           **({"first_difference": first} if first else {})}
+                    cr_impl.append(ent)
+                    cr_model.append(ent)
+                    if not ok:
+                        cr_feats.add("calibrated read: values differ from the model (recorded only)")
+                else:
+                    cr_impl.append({**tag, "shape": list(res.shape), "agrees_with_model": bool(ok), **({"first_difference": first} if first else {})})
+                    cr_model.append({**tag, "shape": mj["shape"], "agrees_with_model": True})
                 cr_feats.add("cread:" + ("calibrated" if rd["calibrate"] else "plain") + (":layer" if rd["layer"] is not None else (":flat" if rd["flat"] else ":recon"))
                              + (":element" if rd["element"] is not None else ":all"))
                 if rd["calibrate"] and rd["layer"] is not None and rd["element"] is None and any(
